@@ -278,6 +278,24 @@ def refusal_check(E, body, st):
         return
     if body.name in REFUSAL_EXEMPT_METHODS:
         return
+    # the branch that led into the panic: when it was taken on a condition the analysis could not evaluate (a
+    # comparison of values it has no relation for -- typically an always-true consistency assertion, `debug_assert!(
+    # upper == Some(lower))`), the panicking path is an artefact of the abstraction, not a refusal the crate
+    # was seen to make: the rule speaks only about panics whose condition is decided or left open by the ZONE
+    idx = max(i for i, e in enumerate(st.events) if e and e[0] == 'panic')
+    for e in reversed(st.events[:idx]):
+        if not e:
+            continue
+        if e[0] == 'cond':
+            break
+        if e[0] == 'assume':
+            t = e[1]
+            while isinstance(t, tuple) and len(t) == 2 and t[0] == 'not':
+                t = t[1]
+            if isinstance(t, tuple) and t[:1] in (('cmp',), ('?',), ('ovf',)):
+                E.stats['refusal_undecided'] += 1
+                return
+            break
     from . import specs
     key = specs.root_key(body)
     just = None
